@@ -45,4 +45,11 @@ var propSpecs = []PropSpec{
 		NotDecided:  "exact messages and columns; the accepted key set itself against GitHub's schema (only that keys outside the switch are reported)",
 		Assumptions: commonAssumptions,
 	},
+	{
+		ID:          "C08",
+		Rules:       []string{"C08.KEYW", "C08.KEYR", "C08.FIELD", "C13.CASEARG"},
+		Explanation: "Decides a two-point lattice (lower-case / unknown) on strings: every key stored into (KEYW) or used to look up (KEYR) a map whose keys are case-insensitive names (26 map types: ObjectType.Props, context and function tables, AST maps, action/workflow metadata, untrusted-input tree, job graph) is provably lower-case - a constant equal to its lower-casing, a strings.ToLower result, a field that only ever receives lower-case values (FIELD, greatest fixpoint over all stores), an id produced by a case-insensitive parseMapping call, a range key of another name-keyed map, or a parameter all of whose callers pass lower-case values. CASEARG (shared with C13) fixes which YAML mappings fold case.",
+		NotDecided:  "messages compared modulo letter case; names compared by other means than map lookup (strings.EqualFold sites are not enumerated); keywords true/false/null",
+		Assumptions: commonAssumptions,
+	},
 }
